@@ -1,6 +1,6 @@
 ----------------------------- MODULE Export_C12 -----------------------------
 EXTENDS U_C12, Json, IOUtils
-ASSUME JsonSerialize(IOEnv.JASM_OUT, Universe)
+ASSUME JsonSerialize(IOEnv.JASM_OUT, [m |-> Universe, n |-> UniverseN])
 VARIABLE x
 Init == x = 0
 Next == x' = x
